@@ -1031,8 +1031,9 @@ class InstrOps:
                 fr.defers.append((guard, "funcv", self.val(env, fnop), None, args, ins))
 
     def i_RunDefers(self, fr, env, ins, guard, state):
-        defers = fr.defers
-        fr.defers = []
+        # NB: a function has one RunDefers per return site and the guarded executor visits all of them: the list must
+        # survive for the later sites (clearing it here ran the deferred calls on the first return path only)
+        defers = list(fr.defers)
         for g, kind, a, b, args, dins in reversed(defers):
             gg = b_and(guard, g)
             if gg is False:
@@ -1290,6 +1291,15 @@ class InstrOps:
         return v
 
     def chan_close(self, ch, guard):
+        c = getattr(self, "conc", None)
+        if c is not None and c.recording is not None:
+            def apply(active, ch=ch):
+                self._chan_close_now(ch, active)
+            c.add_event(guard, apply, "chan close", None, visible=True)
+            return None
+        return self._chan_close_now(ch, guard)
+
+    def _chan_close_now(self, ch, guard):
         for g, r in ch.alts:
             if r is None:
                 continue
